@@ -131,3 +131,61 @@ func VerifC11Abort() {
 		vstub.Assert(inLog(a, e), "C11 after an aborted request a later request makes every reachable entry visible")
 	}
 }
+
+// VerifC11CancelAnywhere: the first request's context is cancelled at ANY
+// visible operation of any thread (every lock/unlock, channel operation,
+// goroutine start, block or cache effect is a point where the path may fire the
+// cancellation); a later uncancelled request must still make every reachable
+// entry visible (modulo the listed partial-ancestry finding).
+func VerifC11CancelAnywhere() {
+	n := vstub.Param("N", 2)
+	blocks := vstub.NewBlocks(nil)
+	prov := vstub.NewProvider()
+	w2 := vstub.NewIdentity("w2", prov)
+	env := vstubodb.NewEnv("a", 1, "db", blocks, nil)
+	opts := env.Options(false)
+	opts.AccessController = vstubodb.WriteAll()
+	opts.ReplicationConcurrency = uint(1 + vstub.NdChoice("concurrency", 2))
+	a := &BaseStore{}
+	if err := a.InitBaseStore(env.IPFS, env.Identity, env.Addr, opts); err != nil {
+		vstub.Fail("InitBaseStore failed")
+		return
+	}
+	var all []ipfslog.Entry
+	var l *ipfslog.IPFSLog
+	var e ipfslog.Entry
+	for k := 0; k < n; k++ {
+		l, e = appendAs(env, l, a.id, w2, []byte{'c', byte(k)})
+		if e == nil {
+			return
+		}
+		all = append(all, e)
+	}
+	ctx1, cancel1 := context.WithCancel(context.Background())
+	vstub.FaultAtAnyStep(func() { cancel1() })
+	_ = a.Sync(ctx1, []ipfslog.Entry{e.Copy()})
+	vstub.WaitIdle()
+	vstub.FaultDisarm()
+	cancel1()
+	vstub.WaitIdle()
+	vstub.Cover("aborted")
+	partial := false
+	for _, x := range a.OpLog().Values().Slice() {
+		for _, nx := range x.GetNext() {
+			if _, ok := a.OpLog().Get(nx); !ok {
+				partial = true
+			}
+		}
+	}
+	if partial && vstub.KnownFinding("C11-partial-ancestry") {
+		return
+	}
+	if err := a.Sync(context.Background(), []ipfslog.Entry{e.Copy()}); err != nil {
+		vstub.Fail("C11 second request returned an error")
+	}
+	vstub.WaitIdle()
+	vstub.Cover("retried")
+	for _, x := range all {
+		vstub.Assert(inLog(a, x), "C11 after a request cancelled at any step a later request makes every reachable entry visible")
+	}
+}
